@@ -20,11 +20,17 @@ namespace {
 struct Case {
     u16 opcode, exp;
     CaseState st;
+    // a pending vectored interrupt is delivered through SignalVectoredInterrupt (which defines the target address
+    // and context-switch flag) instead of setting ipv directly: the pinned reference leaves those latch fields
+    // uninitialised, so "ipv set without a signal" is not a state on which the reference behaves in a defined way
+    bool vsignal = false;
+    u32 vaddr = 0;
+    bool vcs = false;
 };
 
 struct Gen {
     std::vector<u16> slots; // opcodes of this shard, small handler classes repeated
-    int idx_pc, idx_lp, idx_bcn, idx_end[4], idx_start[4], idx_sp;
+    int idx_pc, idx_lp, idx_bcn, idx_end[4], idx_start[4], idx_sp, idx_ipv;
     Gen(const Ctx& ctx, const std::vector<u8>& weights) {
         for (u32 op = 0; op < 0x10000; ++op)
             if ((int)(op % (u32)ctx.nshards) == ctx.shard)
@@ -34,6 +40,7 @@ struct Gen {
         idx_lp = FieldIndex("lp");
         idx_bcn = FieldIndex("bcn");
         idx_sp = FieldIndex("sp");
+        idx_ipv = FieldIndex("ipv");
         for (int i = 0; i < 4; ++i) {
             idx_end[i] = FieldIndex(fmt("bkrep_stack[%d].end", i));
             idx_start[i] = FieldIndex(fmt("bkrep_stack[%d].start", i));
@@ -58,6 +65,12 @@ struct Gen {
         k.st = RandomState(g, o);
         if (k.st.v[idx_pc] > 0x3FFFD)
             k.st.v[idx_pc] = 0x3FFFD;
+        if (k.st.v[idx_ipv]) {
+            k.st.v[idx_ipv] = 0;
+            k.vsignal = true;
+            k.vaddr = (u32)g.below(0x40000);
+            k.vcs = g.chance(1, 2);
+        }
         if (k.st.v[idx_lp] && k.st.v[idx_bcn] >= 1 && g.chance(1, 2)) {
             // make the innermost loop end coincide with this instruction (one- or two-word)
             unsigned f = (unsigned)k.st.v[idx_bcn] - 1;
@@ -80,6 +93,8 @@ struct Exec {
         pc0 = (u32)k.st.v[FieldIndexPc()];
         m.prog(pc0, k.opcode);
         m.prog(pc0 + 1, k.exp);
+        if (k.vsignal)
+            m.core.SignalVectoredInterrupt(k.vaddr, k.vcs);
         rr = m.run(1);
         after = m.capture();
         u64 h = mix(0xC01, (u64)rr.outcome);
@@ -180,6 +195,11 @@ int ref_stream(Ctx& ctx) {
         ex.run(k);
         char rec[9];
         rec[0] = (char)ex.rr.outcome;
+        // The pinned reference shifts an int by the whole 16-bit second word in `tstb <stt/mod>, #imm16`
+        // (undefined behaviour, D13): for a bit index above 15 it does not complete in a defined way.
+        if (ex.rr.outcome == OK && k.exp > 15 && InterpNeedExpansion(k.opcode) &&
+            std::string(InterpHandlerName(k.opcode)) == "tstb")
+            rec[0] = 5;
         std::memcpy(rec + 1, &ex.digest, 8);
         buf.insert(buf.end(), rec, rec + 9);
         if (buf.size() >= 9 * 4096) {
@@ -237,7 +257,7 @@ int tree_side(Ctx& ctx) {
         ctx.count("cases");
         const char* hname = InterpHandlerName(k.opcode);
         if (ref_outcome != OK) {
-            ctx.count(std::string("excluded_ref_") + outcome_name(ref_outcome));
+            ctx.count(std::string("excluded_ref_") + (ref_outcome == 5 ? "undefined_behaviour" : outcome_name(ref_outcome)));
             continue;
         }
         ex.run(k);
